@@ -98,24 +98,20 @@ class GotranPythonCodePrinter(PythonCodePrinter):
 
         return "".join(result)
 
-    def _print_And(self, expr):
-        if len(expr.args) == 2:
-            value = f"numpy.logical_and({self._print(expr.args[0])}, {self._print(expr.args[1])})"
-        else:
-            args = ", ".join(self._print(arg) for arg in expr.args)
-            value = f"numpy.logical_and.reduce(({args}))"
-
+    def _print_logical(self, func: str, args) -> str:
+        # Nest the binary function, i.e logical_and(logical_and(a, b), c). The
+        # reduce method needs operands of equal shape (which fails for a mix of
+        # scalars and arrays) and is not supported by jax for a tuple.
+        value = self._print(args[0])
+        for arg in args[1:]:
+            value = f"numpy.{func}({value}, {self._print(arg)})"
         return value
+
+    def _print_And(self, expr):
+        return self._print_logical("logical_and", expr.args)
 
     def _print_Or(self, expr):
-        # value = super()._print_Or(expr)
-        if len(expr.args) == 2:
-            value = f"numpy.logical_or({self._print(expr.args[0])}, {self._print(expr.args[1])})"
-        else:
-            args = ", ".join(self._print(arg) for arg in expr.args)
-            value = f"numpy.logical_or.reduce(({args}))"
-
-        return value
+        return self._print_logical("logical_or", expr.args)
 
     # def _print_Equality(self, expr):
     #     lhs, rhs = expr.args
